@@ -59,10 +59,15 @@ func plans() map[string]Plan {
 		Assumptions: append([]string{"the ICWS'88 legality table is ref.Legal88 (written from the standard; SLT with immediate B allowed as the suite documents)"}, baseAssumptions...)}
 	for _, id := range []string{"C09", "C10", "C16"} {
 		p[id] = Plan{Prop: id,
-			Quick:       []Job{{Name: "load-files", Engine: "e5"}},
-			Thorough:    []Job{{Name: "load-files", Engine: "e5"}},
-			QuickCap:    300, ThoroughCap: 3000,
+			Quick:    []Job{{Name: "load-files", Engine: "e5"}},
+			Thorough: []Job{{Name: "load-files", Engine: "e5"}},
+			QuickCap: 300, ThoroughCap: 3000,
 			Assumptions: append([]string{"canonical printer, line classifier and listing reader are ref/load.go (independent of gmars)"}, baseAssumptions...)}
 	}
+	p["C13"] = Plan{Prop: "C13",
+		Quick:    []Job{{Name: "api-bfs", Engine: "e3", Shards: 9}},
+		Thorough: []Job{{Name: "api-bfs", Engine: "e3"}},
+		QuickCap: 300, ThoroughCap: 3000,
+		Assumptions: append([]string{"the state key of the search is the full observable state (every query of the battery) plus the model's bookkeeping; private fields that never become observable are not distinguished", "R-api (engines/e3) is the reference state machine; Queue/NextPC between Reset and respawn, error texts and RunCycle's integer on an inactive battle are unspecified and not compared"}, baseAssumptions...)}
 	return p
 }
